@@ -1435,14 +1435,32 @@ def llist(items, indent="  "):
     return "[\n" + ",\n".join(indent + x for x in items) + "\n" + indent[:-2] + "]"
 
 
-EXPECTED_HELPERS = {
-    # the two helpers of main.cpp the option table is read through; the translator's reading of `either` and
-    # `with_default` is only valid for exactly these bodies
-    "either": '{ return std :: string ( shorter_keyword ) + "," + keyword ; }',
-    "with_default": "{ if constexpr ( std :: is_same_v < std :: string , T > ) return cxxopts :: value < T > ( ) -> "
-                    "default_value ( defs ) ; else return cxxopts :: value < T > ( ) -> default_value ( std :: to_string "
-                    "( defs ) ) ; }",
+EXPECTED_EITHER = '{ return std :: string ( shorter_keyword ) + "," + keyword ; }'
+# with_default: how a numeric default literal becomes the text cxxopts stores.  Known bodies -> format of `double` defaults
+WITH_DEFAULT_BODIES = {
+    "{ if constexpr ( std :: is_same_v < std :: string , T > ) return cxxopts :: value < T > ( ) -> default_value ( defs ) ; "
+    "else return cxxopts :: value < T > ( ) -> default_value ( std :: to_string ( defs ) ) ; }": "std::to_string",
+    "{ if constexpr ( std :: is_same_v < std :: string , T > ) return cxxopts :: value < T > ( ) -> default_value ( defs ) ; "
+    "else if constexpr ( std :: is_floating_point_v < T > ) return cxxopts :: value < T > ( ) -> default_value ( fmt :: format "
+    '( "{}" , defs ) ) ; else return cxxopts :: value < T > ( ) -> default_value ( std :: to_string ( defs ) ) ; }': "fmt::format",
 }
+
+
+def read_loop_kind(toks, path):
+    """the outer loop of read_data: `while (ifs) { getline(ifs, str); …` re-reads an unterminated last line (true);
+    `while (getline(ifs, str)) {` does not (false)"""
+    t = [x.text for x in toks]
+    if "while" not in t:
+        raise TranslateError("%s: read_data has no while loop" % path)
+    i = t.index("while")
+    w = [x for x in t[i:i + 16] if x not in ("std", "::")]
+    if len(w) > 11 and w[1] == "(" and w[3] == ")" and w[4] == "{" and w[5] == "getline" and w[6] == "(" and w[7] == w[2] \
+            and w[8] == "," and w[10] == ")" and w[11] == ";":
+        return True
+    if len(w) > 9 and w[1] == "(" and w[2] == "getline" and w[3] == "(" and w[5] == "," and w[7] == ")" and w[8] == ")" \
+            and w[9] == "{":
+        return False
+    raise TranslateError("%s: outer loop of read_data not understood: %s" % (path, " ".join(t[i:i + 16])))
 
 
 def extract(repo=None):
@@ -1458,13 +1476,18 @@ def extract(repo=None):
     for need in ("read_data", "write_matrix", "write_vector", "parse_multiple"):
         if need not in ufuncs:
             raise TranslateError("util.hpp: function %s not found" % need)
-    for name, exp in EXPECTED_HELPERS.items():
+    for name in ("either", "with_default"):
         if name not in mfuncs:
             raise TranslateError("main.cpp: helper %s not found" % name)
-        got = norm_tokens(mfuncs[name][2])
-        if got != exp:
-            raise TranslateError("main.cpp: helper `%s` changed; the translator reads option rows through it.\n  expected %s\n  found    %s"
-                                 % (name, exp, got))
+    got = norm_tokens(mfuncs["either"][2])
+    if got != EXPECTED_EITHER:
+        raise TranslateError("main.cpp: helper `either` changed; the translator reads option names through it.\n  expected %s\n  found    %s"
+                             % (EXPECTED_EITHER, got))
+    got = norm_tokens(mfuncs["with_default"][2])
+    if got not in WITH_DEFAULT_BODIES:
+        raise TranslateError("main.cpp: helper `with_default` changed; the translator reads option defaults through it.\n  found %s" % got)
+    double_defaults_via = WITH_DEFAULT_BODIES[got]
+    rereads = read_loop_kind(ufuncs["read_data"][2], util)
     if "run" not in mfuncs or "main" not in mfuncs:
         raise TranslateError("main.cpp: run()/main() not found")
     # run()
@@ -1500,6 +1523,12 @@ def extract(repo=None):
     o.append("")
     o.append("/-- `srand(time(NULL))` at the top of run() -/")
     o.append("def seedsFromTime : Bool := %s" % lbool(ex.seeding == "time"))
+    o.append("")
+    o.append("/-- how `with_default` turns a `double` literal into the text cxxopts stores -/")
+    o.append("def doubleDefaultsVia : String := %s" % lstr(double_defaults_via))
+    o.append("")
+    o.append("/-- outer loop of read_data is `while (ifs) { getline(ifs, str); …` (an unterminated last line is seen twice) -/")
+    o.append("def readLoopRereadsLastLine : Bool := %s" % lbool(rereads))
     o.append("")
     rows = []
     for names, ty, default, has, help_ in ex.options:
@@ -1541,6 +1570,7 @@ def extract(repo=None):
         "options": [{"names": n, "canonical": n[-1], "ty": ty, "default": d, "hasValue": h} for n, ty, d, h, _ in ex.options],
         "wiring": ex.wiring, "steps": ex.steps, "main_catch": main_catch,
         "maps": {name: [(k, v.split("::")[-1]) for k, v in entries] for name, (_, entries) in umaps.items()},
+        "double_defaults_via": double_defaults_via, "read_loop_rereads": rereads,
         "consts": consts, "traits": traits, "keywords": kws, "defaults": dfl, "defines": sorted(defines),
     }
 
